@@ -834,6 +834,10 @@ fn payload(class: &str, rng: &mut StdRng, salt: u64) -> Vec<u8> {
             let pat = format!("selium-{}-", salt % 97);
             pat.as_bytes().iter().cycle().take(65536).copied().collect()
         }
+        "repetitive_512k" => {
+            let pat = format!("<{}>", salt % 89);
+            pat.as_bytes().iter().cycle().take(300 * 1024).copied().collect()
+        }
         "text_8k" => {
             let words = ["lorem", "ipsum", "dolor", "sit", "amet", "consectetur", "adipiscing", "elit", "0123456789", "\n"];
             let mut s = String::new();
